@@ -61,7 +61,7 @@ func paren(x ast.Expr) ast.Expr {
 	return &ast.ParenExpr{X: x}
 }
 func (r *rw) simrt(name string) ast.Expr { r.used = true; return sel(id("simrt"), name) }
-func (r *rw) tmp(p string) string       { r.n++; return "_sim" + p + strconv.Itoa(r.n) }
+func (r *rw) tmp(p string) string        { r.n++; return "_sim" + p + strconv.Itoa(r.n) }
 func (r *rw) errf(pos token.Pos, f string, a ...interface{}) {
 	r.errs = append(r.errs, r.fset.Position(pos).String()+": "+fmt.Sprintf(f, a...))
 }
